@@ -248,6 +248,7 @@ SCALAR_OPS = [
     ("positive_float", "vpf F F", lambda V, v: V.validate_positive_float(v, "p")),
     ("positive_float?", "vpf T F", lambda V, v: V.validate_positive_float(v, "p", optional=True)),
     ("positive_float:inf", "vpf F T", lambda V, v: V.validate_positive_float(v, "p", allow_inf=True)),
+    ("positive_float?:inf", "vpf T T", lambda V, v: V.validate_positive_float(v, "p", optional=True, allow_inf=True)),
     ("float", "vfl F", lambda V, v: V.validate_float(v, "p")),
     ("float?", "vfl T", lambda V, v: V.validate_float(v, "p", optional=True)),
     ("positive_int", "vpi F", lambda V, v: V.validate_positive_int(v, "p")),
@@ -299,6 +300,8 @@ def is_big_int(spec, bound=2 ** 63):
 def expected_refusal(name, spec):
     """Independent table of the refusals the property spells out (None = no claim)."""
     base = name.rstrip("?+").split(":")[0]
+    if name.startswith("positive_float"):
+        base = "positive_float"
     optional = "?" in name
     k = spec[0]
     x = spec_float(spec)
@@ -361,6 +364,8 @@ def post_ok(name, spec, r):
     """Independent postcondition of an accepted value; returns a message or None."""
     import jax
     base = name.rstrip("?+").split(":")[0]
+    if name.startswith("positive_float"):
+        base = "positive_float"
     if r is None:
         return None if (spec[0] == "N") else "returned None for a non-None input"
     if base == "positive_float":
@@ -746,8 +751,9 @@ def case_ctor(ctx, res, p):
         g = dict(zip(CTOR_KEYS, got))
         bad = []
         for k in ("jitter", "ls_factor", "init_learn_rate", "ls"):
-            if g[k] is not None and not (isinstance(g[k], float) and 0 < g[k] < float("inf")):
-                bad.append(f"{k}={g[k]!r} is not a finite positive float")
+            top_ok = k in ("ls", "ls_factor")        # +inf is a legal length scale (constant kernel), not a legal jitter / step
+            if g[k] is not None and not (isinstance(g[k], float) and 0 < g[k] and (top_ok or g[k] < float("inf"))):
+                bad.append(f"{k}={g[k]!r} is not a {'' if top_ok else 'finite '}positive float")
         for k in ("mu", "rank"):
             if g[k] is not None and (not isinstance(g[k], (int, float)) or g[k] != g[k]):
                 bad.append(f"{k}={g[k]!r} is NaN or not a number")
@@ -775,8 +781,8 @@ def case_ctor(ctx, res, p):
     # the refusals the property spells out, one dirty argument at a time
     if len(dirty) == 1 and not cls.startswith("Internal"):
         k = dirty[0]
-        vname = {"jitter": "positive_float", "ls_factor": "positive_float", "init_learn_rate": "positive_float",
-                 "ls": "positive_float?", "rank": "float_or_int?", "mu": "float?", "n_landmarks": "positive_int?",
+        vname = {"jitter": "positive_float", "ls_factor": "positive_float:inf", "init_learn_rate": "positive_float",
+                 "ls": "positive_float?:inf", "rank": "float_or_int?", "mu": "float?", "n_landmarks": "positive_int?",
                  "n_iter": "positive_int", "predictor_with_uncertainty": "bool", "jit": "bool", "check_rank": "bool?",
                  "optimizer": "string:optimizer", "gp_type": "gp_type"}.get(k)
         exp = expected_refusal(vname, args[k]) if vname else None
@@ -1010,7 +1016,9 @@ def witnesses():
          "expect": "ValueError"},
         {"op": "ctor", "args": {"init_learn_rate": F(float("inf"))}},
         {"op": "ctor", "args": {"jitter": F(float("inf"))}},
-        {"op": "ctor", "args": {"ls": ["S", "inf"]}},
+        {"op": "ctor", "args": {"ls": ["S", "inf"]}},          # accepted: the constant-kernel limit (fix bac25f2)
+        {"op": "ctor", "args": {"ls_factor": F(float("inf"))}},
+        {"op": "fit", "estimator": "density", "data": "clean", "n": 20, "seed": 1, "extra": {"ls": F(float("inf"))}},
         {"op": "ctor", "args": {"rank": ["I", str(-2 ** 63 - 1)]}},
         {"op": "ctor", "args": {"d": ["I", str(10 ** 400)]}},
         {"op": "ctor", "args": {"landmarks": ["L", [["L", [["I", str(10 ** 400)], ["I", "1"]]]]]}},
